@@ -20,7 +20,33 @@ BIAS = dict(n_test_faults=[1, 1, 2, 3], n_layer_faults=[0, 0, 1, 1], layer_kinds
 
 
 def gen(seed):
-    return _ws.gen_ws(seed, ID, BIAS)
+    spec = _ws.gen_ws(seed, ID, BIAS)
+    import random
+    srng = random.Random(seed ^ 0xC16)
+    m = W.Model(spec['world'])
+    if seed % 5 == 1:
+        # a layer tearDown that fails (between two layers or in the final pass): the run still
+        # ends with the other layers torn down, a summary and the verdict 'failed'
+        cands = [L['name'] for L in spec['world']['layers'] if m.has_hook(L['name'], 'tearDown')]
+        if cands:
+            spec['plan'].append({'site': 'layer.tearDown', 'ident': srng.choice(cands),
+                                 'a': 'raise', 'exc': srng.choice(['ValueError', 'KeyError'])})
+    if seed % 7 == 5 and not spec['opt'].get('j'):
+        # a resumed child whose report arrives late (its stderr stays open after its stdout
+        # was closed): the parent must know the outcome before it starts the next layer
+        lays = [m.full(L['name']) for L in spec['world']['layers']] + [W.UNIT]
+        for lf in lays:
+            spec['plan'].append({'site': 'channel', 'ident': lf, 'a': 'stall',
+                                 'pos': srng.randint(0, 60),
+                                 'dt': srng.choice([0.5, 2.0, 45.0]), 'after_close': True})
+        if not any(e.get('exc') == 'NotImplementedError' for e in spec['plan']):
+            cands = [L['name'] for L in spec['world']['layers']
+                     if m.has_hook(L['name'], 'tearDown')]
+            if cands:
+                spec['plan'].append({'site': 'layer.tearDown', 'ident': srng.choice(cands),
+                                     'a': 'raise', 'exc': 'NotImplementedError',
+                                     'where': 'parent'})
+    return spec
 
 
 def run(spec, ctx):
